@@ -94,6 +94,70 @@ Definition src_it_add_assign_U8_U8 : list effect :=
   [ (PtrAdd "ptr" (EBin OMul I64 (ECast I64 (EVar "n")) (ECast I64 (EVar "block_length"))));
     (Store "index" (ECast U8 (EBin OAdd I32 (ECast I32 (EVar "index")) (ECast I32 (EVar "n"))))) ].
 
+Definition src_it_dec_U16_U16 : list effect :=
+  [ (PtrSub "ptr" (ECast I32 (EVar "block_length")));
+    (Store "index" (ECast U16 (EBin OSub I32 (ECast I32 (EVar "index")) (ELit (1))))) ].
+
+Definition src_it_dec_U16_U32 : list effect :=
+  [ (PtrSub "ptr" (EVar "block_length"));
+    (Store "index" (ECast U16 (EBin OSub I32 (ECast I32 (EVar "index")) (ELit (1))))) ].
+
+Definition src_it_dec_U16_U64 : list effect :=
+  [ (PtrSub "ptr" (EVar "block_length"));
+    (Store "index" (ECast U16 (EBin OSub I32 (ECast I32 (EVar "index")) (ELit (1))))) ].
+
+Definition src_it_dec_U16_U8 : list effect :=
+  [ (PtrSub "ptr" (ECast I32 (EVar "block_length")));
+    (Store "index" (ECast U16 (EBin OSub I32 (ECast I32 (EVar "index")) (ELit (1))))) ].
+
+Definition src_it_dec_U32_U16 : list effect :=
+  [ (PtrSub "ptr" (ECast I32 (EVar "block_length")));
+    (Store "index" (ECast U32 (EBin OSub U32 (ECast U32 (EVar "index")) (ELit (1))))) ].
+
+Definition src_it_dec_U32_U32 : list effect :=
+  [ (PtrSub "ptr" (EVar "block_length"));
+    (Store "index" (ECast U32 (EBin OSub U32 (ECast U32 (EVar "index")) (ELit (1))))) ].
+
+Definition src_it_dec_U32_U64 : list effect :=
+  [ (PtrSub "ptr" (EVar "block_length"));
+    (Store "index" (ECast U32 (EBin OSub U32 (ECast U32 (EVar "index")) (ELit (1))))) ].
+
+Definition src_it_dec_U32_U8 : list effect :=
+  [ (PtrSub "ptr" (ECast I32 (EVar "block_length")));
+    (Store "index" (ECast U32 (EBin OSub U32 (ECast U32 (EVar "index")) (ELit (1))))) ].
+
+Definition src_it_dec_U64_U16 : list effect :=
+  [ (PtrSub "ptr" (ECast I32 (EVar "block_length")));
+    (Store "index" (ECast U64 (EBin OSub U64 (ECast U64 (EVar "index")) (ELit (1))))) ].
+
+Definition src_it_dec_U64_U32 : list effect :=
+  [ (PtrSub "ptr" (EVar "block_length"));
+    (Store "index" (ECast U64 (EBin OSub U64 (ECast U64 (EVar "index")) (ELit (1))))) ].
+
+Definition src_it_dec_U64_U64 : list effect :=
+  [ (PtrSub "ptr" (EVar "block_length"));
+    (Store "index" (ECast U64 (EBin OSub U64 (ECast U64 (EVar "index")) (ELit (1))))) ].
+
+Definition src_it_dec_U64_U8 : list effect :=
+  [ (PtrSub "ptr" (ECast I32 (EVar "block_length")));
+    (Store "index" (ECast U64 (EBin OSub U64 (ECast U64 (EVar "index")) (ELit (1))))) ].
+
+Definition src_it_dec_U8_U16 : list effect :=
+  [ (PtrSub "ptr" (ECast I32 (EVar "block_length")));
+    (Store "index" (ECast U8 (EBin OSub I32 (ECast I32 (EVar "index")) (ELit (1))))) ].
+
+Definition src_it_dec_U8_U32 : list effect :=
+  [ (PtrSub "ptr" (EVar "block_length"));
+    (Store "index" (ECast U8 (EBin OSub I32 (ECast I32 (EVar "index")) (ELit (1))))) ].
+
+Definition src_it_dec_U8_U64 : list effect :=
+  [ (PtrSub "ptr" (EVar "block_length"));
+    (Store "index" (ECast U8 (EBin OSub I32 (ECast I32 (EVar "index")) (ELit (1))))) ].
+
+Definition src_it_dec_U8_U8 : list effect :=
+  [ (PtrSub "ptr" (ECast I32 (EVar "block_length")));
+    (Store "index" (ECast U8 (EBin OSub I32 (ECast I32 (EVar "index")) (ELit (1))))) ].
+
 Definition src_it_diff_U16_U16 : list effect :=
   [ (Return (ECast I16 (EBin OSub I32 (ECast I32 (EVar "index")) (ECast I32 (EVar "rhs.index"))))) ].
 
@@ -142,6 +206,86 @@ Definition src_it_diff_U8_U64 : list effect :=
 Definition src_it_diff_U8_U8 : list effect :=
   [ (Return (ECast I8 (EBin OSub I32 (ECast I32 (EVar "index")) (ECast I32 (EVar "rhs.index"))))) ].
 
+Definition src_it_inc_U16_U16 : list effect :=
+  [ (Assert (ECond (ECond (EToBool (EVar "ptr")) (ECmp CLe (EVar "ptr") (EVar "end")) (ELit (0))) (ECond (ECmp CLe (ECast U64 (EVar "block_length")) (ECast U64 (EBin OSub I64 (EVar "end") (EVar "ptr")))) (ECmp CLe (ECast U64 (ELit (0))) (EBin OSub U64 (ECast U64 (EBin OSub I64 (EVar "end") (EVar "ptr"))) (ECast U64 (EVar "block_length")))) (ELit (0))) (ELit (0))));
+    (PtrAdd "ptr" (ECast I32 (EVar "block_length")));
+    (Store "index" (ECast U16 (EBin OAdd I32 (ECast I32 (EVar "index")) (ELit (1))))) ].
+
+Definition src_it_inc_U16_U32 : list effect :=
+  [ (Assert (ECond (ECond (EToBool (EVar "ptr")) (ECmp CLe (EVar "ptr") (EVar "end")) (ELit (0))) (ECond (ECmp CLe (ECast U64 (EVar "block_length")) (ECast U64 (EBin OSub I64 (EVar "end") (EVar "ptr")))) (ECmp CLe (ECast U64 (ELit (0))) (EBin OSub U64 (ECast U64 (EBin OSub I64 (EVar "end") (EVar "ptr"))) (ECast U64 (EVar "block_length")))) (ELit (0))) (ELit (0))));
+    (PtrAdd "ptr" (EVar "block_length"));
+    (Store "index" (ECast U16 (EBin OAdd I32 (ECast I32 (EVar "index")) (ELit (1))))) ].
+
+Definition src_it_inc_U16_U64 : list effect :=
+  [ (Assert (ECond (ECond (EToBool (EVar "ptr")) (ECmp CLe (EVar "ptr") (EVar "end")) (ELit (0))) (ECond (ECmp CLe (EVar "block_length") (ECast U64 (EBin OSub I64 (EVar "end") (EVar "ptr")))) (ECmp CLe (ECast U64 (ELit (0))) (EBin OSub U64 (ECast U64 (EBin OSub I64 (EVar "end") (EVar "ptr"))) (EVar "block_length"))) (ELit (0))) (ELit (0))));
+    (PtrAdd "ptr" (EVar "block_length"));
+    (Store "index" (ECast U16 (EBin OAdd I32 (ECast I32 (EVar "index")) (ELit (1))))) ].
+
+Definition src_it_inc_U16_U8 : list effect :=
+  [ (Assert (ECond (ECond (EToBool (EVar "ptr")) (ECmp CLe (EVar "ptr") (EVar "end")) (ELit (0))) (ECond (ECmp CLe (ECast U64 (EVar "block_length")) (ECast U64 (EBin OSub I64 (EVar "end") (EVar "ptr")))) (ECmp CLe (ECast U64 (ELit (0))) (EBin OSub U64 (ECast U64 (EBin OSub I64 (EVar "end") (EVar "ptr"))) (ECast U64 (EVar "block_length")))) (ELit (0))) (ELit (0))));
+    (PtrAdd "ptr" (ECast I32 (EVar "block_length")));
+    (Store "index" (ECast U16 (EBin OAdd I32 (ECast I32 (EVar "index")) (ELit (1))))) ].
+
+Definition src_it_inc_U32_U16 : list effect :=
+  [ (Assert (ECond (ECond (EToBool (EVar "ptr")) (ECmp CLe (EVar "ptr") (EVar "end")) (ELit (0))) (ECond (ECmp CLe (ECast U64 (EVar "block_length")) (ECast U64 (EBin OSub I64 (EVar "end") (EVar "ptr")))) (ECmp CLe (ECast U64 (ELit (0))) (EBin OSub U64 (ECast U64 (EBin OSub I64 (EVar "end") (EVar "ptr"))) (ECast U64 (EVar "block_length")))) (ELit (0))) (ELit (0))));
+    (PtrAdd "ptr" (ECast I32 (EVar "block_length")));
+    (Store "index" (ECast U32 (EBin OAdd U32 (ECast U32 (EVar "index")) (ELit (1))))) ].
+
+Definition src_it_inc_U32_U32 : list effect :=
+  [ (Assert (ECond (ECond (EToBool (EVar "ptr")) (ECmp CLe (EVar "ptr") (EVar "end")) (ELit (0))) (ECond (ECmp CLe (ECast U64 (EVar "block_length")) (ECast U64 (EBin OSub I64 (EVar "end") (EVar "ptr")))) (ECmp CLe (ECast U64 (ELit (0))) (EBin OSub U64 (ECast U64 (EBin OSub I64 (EVar "end") (EVar "ptr"))) (ECast U64 (EVar "block_length")))) (ELit (0))) (ELit (0))));
+    (PtrAdd "ptr" (EVar "block_length"));
+    (Store "index" (ECast U32 (EBin OAdd U32 (ECast U32 (EVar "index")) (ELit (1))))) ].
+
+Definition src_it_inc_U32_U64 : list effect :=
+  [ (Assert (ECond (ECond (EToBool (EVar "ptr")) (ECmp CLe (EVar "ptr") (EVar "end")) (ELit (0))) (ECond (ECmp CLe (EVar "block_length") (ECast U64 (EBin OSub I64 (EVar "end") (EVar "ptr")))) (ECmp CLe (ECast U64 (ELit (0))) (EBin OSub U64 (ECast U64 (EBin OSub I64 (EVar "end") (EVar "ptr"))) (EVar "block_length"))) (ELit (0))) (ELit (0))));
+    (PtrAdd "ptr" (EVar "block_length"));
+    (Store "index" (ECast U32 (EBin OAdd U32 (ECast U32 (EVar "index")) (ELit (1))))) ].
+
+Definition src_it_inc_U32_U8 : list effect :=
+  [ (Assert (ECond (ECond (EToBool (EVar "ptr")) (ECmp CLe (EVar "ptr") (EVar "end")) (ELit (0))) (ECond (ECmp CLe (ECast U64 (EVar "block_length")) (ECast U64 (EBin OSub I64 (EVar "end") (EVar "ptr")))) (ECmp CLe (ECast U64 (ELit (0))) (EBin OSub U64 (ECast U64 (EBin OSub I64 (EVar "end") (EVar "ptr"))) (ECast U64 (EVar "block_length")))) (ELit (0))) (ELit (0))));
+    (PtrAdd "ptr" (ECast I32 (EVar "block_length")));
+    (Store "index" (ECast U32 (EBin OAdd U32 (ECast U32 (EVar "index")) (ELit (1))))) ].
+
+Definition src_it_inc_U64_U16 : list effect :=
+  [ (Assert (ECond (ECond (EToBool (EVar "ptr")) (ECmp CLe (EVar "ptr") (EVar "end")) (ELit (0))) (ECond (ECmp CLe (ECast U64 (EVar "block_length")) (ECast U64 (EBin OSub I64 (EVar "end") (EVar "ptr")))) (ECmp CLe (ECast U64 (ELit (0))) (EBin OSub U64 (ECast U64 (EBin OSub I64 (EVar "end") (EVar "ptr"))) (ECast U64 (EVar "block_length")))) (ELit (0))) (ELit (0))));
+    (PtrAdd "ptr" (ECast I32 (EVar "block_length")));
+    (Store "index" (ECast U64 (EBin OAdd U64 (ECast U64 (EVar "index")) (ELit (1))))) ].
+
+Definition src_it_inc_U64_U32 : list effect :=
+  [ (Assert (ECond (ECond (EToBool (EVar "ptr")) (ECmp CLe (EVar "ptr") (EVar "end")) (ELit (0))) (ECond (ECmp CLe (ECast U64 (EVar "block_length")) (ECast U64 (EBin OSub I64 (EVar "end") (EVar "ptr")))) (ECmp CLe (ECast U64 (ELit (0))) (EBin OSub U64 (ECast U64 (EBin OSub I64 (EVar "end") (EVar "ptr"))) (ECast U64 (EVar "block_length")))) (ELit (0))) (ELit (0))));
+    (PtrAdd "ptr" (EVar "block_length"));
+    (Store "index" (ECast U64 (EBin OAdd U64 (ECast U64 (EVar "index")) (ELit (1))))) ].
+
+Definition src_it_inc_U64_U64 : list effect :=
+  [ (Assert (ECond (ECond (EToBool (EVar "ptr")) (ECmp CLe (EVar "ptr") (EVar "end")) (ELit (0))) (ECond (ECmp CLe (EVar "block_length") (ECast U64 (EBin OSub I64 (EVar "end") (EVar "ptr")))) (ECmp CLe (ECast U64 (ELit (0))) (EBin OSub U64 (ECast U64 (EBin OSub I64 (EVar "end") (EVar "ptr"))) (EVar "block_length"))) (ELit (0))) (ELit (0))));
+    (PtrAdd "ptr" (EVar "block_length"));
+    (Store "index" (ECast U64 (EBin OAdd U64 (ECast U64 (EVar "index")) (ELit (1))))) ].
+
+Definition src_it_inc_U64_U8 : list effect :=
+  [ (Assert (ECond (ECond (EToBool (EVar "ptr")) (ECmp CLe (EVar "ptr") (EVar "end")) (ELit (0))) (ECond (ECmp CLe (ECast U64 (EVar "block_length")) (ECast U64 (EBin OSub I64 (EVar "end") (EVar "ptr")))) (ECmp CLe (ECast U64 (ELit (0))) (EBin OSub U64 (ECast U64 (EBin OSub I64 (EVar "end") (EVar "ptr"))) (ECast U64 (EVar "block_length")))) (ELit (0))) (ELit (0))));
+    (PtrAdd "ptr" (ECast I32 (EVar "block_length")));
+    (Store "index" (ECast U64 (EBin OAdd U64 (ECast U64 (EVar "index")) (ELit (1))))) ].
+
+Definition src_it_inc_U8_U16 : list effect :=
+  [ (Assert (ECond (ECond (EToBool (EVar "ptr")) (ECmp CLe (EVar "ptr") (EVar "end")) (ELit (0))) (ECond (ECmp CLe (ECast U64 (EVar "block_length")) (ECast U64 (EBin OSub I64 (EVar "end") (EVar "ptr")))) (ECmp CLe (ECast U64 (ELit (0))) (EBin OSub U64 (ECast U64 (EBin OSub I64 (EVar "end") (EVar "ptr"))) (ECast U64 (EVar "block_length")))) (ELit (0))) (ELit (0))));
+    (PtrAdd "ptr" (ECast I32 (EVar "block_length")));
+    (Store "index" (ECast U8 (EBin OAdd I32 (ECast I32 (EVar "index")) (ELit (1))))) ].
+
+Definition src_it_inc_U8_U32 : list effect :=
+  [ (Assert (ECond (ECond (EToBool (EVar "ptr")) (ECmp CLe (EVar "ptr") (EVar "end")) (ELit (0))) (ECond (ECmp CLe (ECast U64 (EVar "block_length")) (ECast U64 (EBin OSub I64 (EVar "end") (EVar "ptr")))) (ECmp CLe (ECast U64 (ELit (0))) (EBin OSub U64 (ECast U64 (EBin OSub I64 (EVar "end") (EVar "ptr"))) (ECast U64 (EVar "block_length")))) (ELit (0))) (ELit (0))));
+    (PtrAdd "ptr" (EVar "block_length"));
+    (Store "index" (ECast U8 (EBin OAdd I32 (ECast I32 (EVar "index")) (ELit (1))))) ].
+
+Definition src_it_inc_U8_U64 : list effect :=
+  [ (Assert (ECond (ECond (EToBool (EVar "ptr")) (ECmp CLe (EVar "ptr") (EVar "end")) (ELit (0))) (ECond (ECmp CLe (EVar "block_length") (ECast U64 (EBin OSub I64 (EVar "end") (EVar "ptr")))) (ECmp CLe (ECast U64 (ELit (0))) (EBin OSub U64 (ECast U64 (EBin OSub I64 (EVar "end") (EVar "ptr"))) (EVar "block_length"))) (ELit (0))) (ELit (0))));
+    (PtrAdd "ptr" (EVar "block_length"));
+    (Store "index" (ECast U8 (EBin OAdd I32 (ECast I32 (EVar "index")) (ELit (1))))) ].
+
+Definition src_it_inc_U8_U8 : list effect :=
+  [ (Assert (ECond (ECond (EToBool (EVar "ptr")) (ECmp CLe (EVar "ptr") (EVar "end")) (ELit (0))) (ECond (ECmp CLe (ECast U64 (EVar "block_length")) (ECast U64 (EBin OSub I64 (EVar "end") (EVar "ptr")))) (ECmp CLe (ECast U64 (ELit (0))) (EBin OSub U64 (ECast U64 (EBin OSub I64 (EVar "end") (EVar "ptr"))) (ECast U64 (EVar "block_length")))) (ELit (0))) (ELit (0))));
+    (PtrAdd "ptr" (ECast I32 (EVar "block_length")));
+    (Store "index" (ECast U8 (EBin OAdd I32 (ECast I32 (EVar "index")) (ELit (1))))) ].
+
 Definition src_set_bit_U16 : list effect :=
   [ (Store "bits" (ECast U16 (EBin OOr I32 (EBin OAnd I32 (ECast I32 (EVar "bits")) (ENot I32 (EShl I32 (ECast I32 (ECast U16 (ELit (1)))) (ECast I32 (EVar "n"))))) (EShl I32 (ECast I32 (ECast U16 (EVar "b"))) (ECast I32 (EVar "n")))))) ].
 
@@ -156,3 +300,4 @@ Definition src_set_bit_U8 : list effect :=
 
 Definition src_size_check_macro : list effect :=
   [ (Assert (ECond (ECond (EToBool (EVar "begin")) (ECmp CLe (EVar "begin") (EVar "end")) (ELit (0))) (ECond (ECmp CLe (EVar "size") (ECast U64 (EBin OSub I64 (EVar "end") (EVar "begin")))) (ECmp CLe (EVar "offset") (EBin OSub U64 (ECast U64 (EBin OSub I64 (EVar "end") (EVar "begin"))) (EVar "size"))) (ELit (0))) (ELit (0)))) ].
+
